@@ -13,18 +13,7 @@ Lemma rest_facts : forall s, Rest s ->
   skip_space s = s.
 Proof. intros s [->|[t [->| ->]]]; cbn; repeat split; reflexivity. Qed.
 
-Definition letter_x (i : Z) : Z := 120 + i.
 Definition is_axis (i : Z) : Prop := i = 0 \/ i = 1 \/ i = 2.
-Definition nt_ok (nt : Z) : Prop := nt = 32 \/ nt = 120.
-
-Lemma interpret_letter_x : forall i nt, is_axis i -> nt_ok nt ->
-  interpret_letter (letter_x i) nt = Some (i, 120).
-Proof. intros i nt [->|[->| ->]] [->| ->]; reflexivity. Qed.
-
-Lemma letter_not_digit : forall i, is_axis i ->
-  is_digit (letter_x i) = false /\ (letter_x i =? 46) = false /\ is_tspace (letter_x i) = false /\
-  (letter_x i =? 43) = false /\ (letter_x i =? 45) = false /\ (letter_x i =? 0) = false.
-Proof. intros i [->|[->| ->]]; cbn; repeat split; reflexivity. Qed.
 
 (* optional "/d" tail of a fraction *)
 Definition frac_tail (d : Z) : str := if d =? 1 then [] else 47 :: print_int d.
@@ -46,11 +35,25 @@ Proof.
   apply skip_space_nonspace. unfold is_digit, is_tspace in *. lia.
 Qed.
 
+Section Style.
+  (* a letter set: style is the char passed to Op::triplet, L i the letter of axis i, ntv the notation
+     value parse_triplet_part detects for these letters *)
+  Variable style : Z.
+  Variable L : Z -> Z.
+  Variable ntv : Z.
+  Definition nt_ok (nt : Z) : Prop := nt = 32 \/ nt = ntv.
+  Hypothesis interpret_letter_x : forall i nt, is_axis i -> nt_ok nt -> interpret_letter (L i) nt = Some (i, ntv).
+  Hypothesis letter_not_digit : forall i, is_axis i ->
+    is_digit (L i) = false /\ (L i =? 46) = false /\ is_tspace (L i) = false /\
+    (L i =? 43) = false /\ (L i =? 45) = false /\ (L i =? 0) = false.
+  Hypothesis no_comma_letter : forall i, is_axis i -> (L i =? 44) = false.
+  Hypothesis letter_at_style : forall i, (i < 3)%nat -> letter_at style i = L (Z.of_nat i).
+
 (* ---- the four body shapes ---- *)
 
 (* "x" *)
 Lemma body_letter : forall i num r nt rest, is_axis i -> nt_ok nt -> Rest rest -> num <> 0 ->
-  part_body (letter_x i :: rest) num r nt = Some (rest, add_at r i num, 120).
+  part_body (L i :: rest) num r nt = Some (rest, add_at r i num, ntv).
 Proof.
   intros i num r nt rest Hi Hnt Hr Hnum. unfold part_body.
   destruct (letter_not_digit i Hi) as [D [P [S _]]].
@@ -63,7 +66,7 @@ Qed.
 (* "x/d" *)
 Lemma body_frac1 : forall i d num r nt rest, is_axis i -> nt_ok nt -> Rest rest -> num <> 0 ->
   good_den d -> d <> 1 ->
-  part_body (letter_x i :: 47 :: print_int d ++ rest) num r nt = Some (rest, add_at r i (cdiv num d), 120).
+  part_body (L i :: 47 :: print_int d ++ rest) num r nt = Some (rest, add_at r i (cdiv num d), ntv).
 Proof.
   intros i d num r nt rest Hi Hnt Hr Hnum Hd Hd1. unfold part_body.
   destruct (letter_not_digit i Hi) as [D [P [S _]]].
@@ -78,8 +81,8 @@ Qed.
 (* "n*x" or "n/d*x" *)
 Lemma body_mult : forall i n d num r nt rest, is_axis i -> nt_ok nt -> Rest rest -> num <> 0 ->
   0 < n -> good_den d ->
-  part_body (print_int n ++ frac_tail d ++ 42 :: letter_x i :: rest) num r nt
-  = Some (rest, add_at r i (if d =? 1 then num * n else cdiv (num * n) d), 120).
+  part_body (print_int n ++ frac_tail d ++ 42 :: L i :: rest) num r nt
+  = Some (rest, add_at r i (if d =? 1 then num * n else cdiv (num * n) d), ntv).
 Proof.
   intros i n d num r nt rest Hi Hnt Hr Hnum Hn Hd. unfold part_body.
   destruct (letter_not_digit i Hi) as [D [P [S _]]].
@@ -87,15 +90,15 @@ Proof.
   rewrite (cur_print_nat_digit_int n _ Hn). cbn [orb].
   unfold frac_tail. destruct (d =? 1) eqn:E1.
   - (* no denominator *)
-    cbn [app]. rewrite (strtol10_digits n (42 :: letter_x i :: rest) Hn eq_refl).
-    cbn [cur adv Z.eqb Pos.eqb]. rewrite (skip_space_nonspace (letter_x i) rest S). cbn [cur adv].
+    cbn [app]. rewrite (strtol10_digits n (42 :: L i :: rest) Hn eq_refl).
+    cbn [cur adv Z.eqb Pos.eqb]. rewrite (skip_space_nonspace (L i) rest S). cbn [cur adv].
     rewrite (interpret_letter_x i nt Hi Hnt). reflexivity.
   - assert (Hd1 : d <> 1) by lia.
     destruct (good_den_checks d Hd Hd1) as [_ [E2 Hpos]].
-    cbn [app]. rewrite (strtol10_digits n (47 :: print_int d ++ 42 :: letter_x i :: rest) Hn eq_refl).
+    cbn [app]. rewrite (strtol10_digits n (47 :: print_int d ++ 42 :: L i :: rest) Hn eq_refl).
     cbn [cur adv Z.eqb Pos.eqb].
-    rewrite (strtol10_digits d (42 :: letter_x i :: rest) Hpos eq_refl).
-    cbn [cur adv Z.eqb Pos.eqb]. rewrite (skip_space_nonspace (letter_x i) rest S). cbn [cur adv].
+    rewrite (strtol10_digits d (42 :: L i :: rest) Hpos eq_refl).
+    cbn [cur adv Z.eqb Pos.eqb]. rewrite (skip_space_nonspace (L i) rest S). cbn [cur adv].
     rewrite (interpret_letter_x i nt Hi Hnt). rewrite E1, E2. cbn. reflexivity.
 Qed.
 
@@ -120,10 +123,10 @@ Qed.
 (* ---- terms as printed by make_triplet_part ---- *)
 Definition rot_body (i : Z) (v : Z) : str :=
   let a := Z.abs v in
-  if a =? DEN then [letter_x i]
+  if a =? DEN then [L i]
   else let f := get_op_fraction a in
-       if fst f =? 1 then [letter_x i] ++ [47] ++ print_int (snd f)
-       else append_fraction [] f ++ [42] ++ [letter_x i].
+       if fst f =? 1 then [L i] ++ [47] ++ print_int (snd f)
+       else append_fraction [] f ++ [42] ++ [L i].
 Definition tran_body (w : Z) : str := append_fraction [] (get_op_fraction (Z.abs w)).
 
 Definition sign_num (v : Z) : Z := if v <? 0 then - DEN else DEN.
@@ -147,7 +150,7 @@ Proof. intros a d x Hd ->. rewrite Z.quot_opp_l by exact Hd. rewrite Z.quot_mul 
 
 (* parsing the body of a rotation term gives back the coefficient *)
 Lemma rot_body_value : forall i v r nt rest, is_axis i -> nt_ok nt -> Rest rest -> v <> 0 ->
-  part_body (rot_body i v ++ rest) (sign_num v) r nt = Some (rest, add_at r i v, 120).
+  part_body (rot_body i v ++ rest) (sign_num v) r nt = Some (rest, add_at r i v, ntv).
 Proof.
   intros i v r nt rest Hi Hnt Hr Hv. unfold rot_body.
   assert (Hs : sign_num v <> 0) by (unfold sign_num, DEN; destruct (v <? 0); lia).
@@ -223,7 +226,7 @@ Lemma rot_body_good_first : forall i v rest, is_axis i -> v <> 0 -> good_first (
 Proof.
   intros i v rest Hi Hv. unfold rot_body.
   destruct (letter_not_digit i Hi) as [_ [_ [S [P [M Z0]]]]].
-  destruct (Z.abs v =? DEN); [exists (letter_x i), rest; auto|].
+  destruct (Z.abs v =? DEN); [exists (L i), rest; auto|].
   assert (Ha : 0 < Z.abs v) by lia.
   pose proof (gof_facts (Z.abs v) Ha) as G. destruct (get_op_fraction (Z.abs v)) as [n d].
   destruct G as [_ [G2 _]]. cbn [fst snd].
@@ -274,7 +277,7 @@ Definition term_body (t : term) : str :=
   match t with TRot i v => rot_body i v | TTran w => tran_body w end.
 Definition term_apply (r : Z*Z*Z*Z) (t : term) : Z*Z*Z*Z :=
   match t with TRot i v => add_at r i v | TTran w => add_at r 3 w end.
-Definition term_nt (nt : Z) (t : term) : Z := match t with TRot _ _ => 120 | TTran _ => nt end.
+Definition term_nt (nt : Z) (t : term) : Z := match t with TRot _ _ => ntv | TTran _ => nt end.
 
 Definition sign_str (first : bool) (v : Z) : str :=
   if v <? 0 then [45] else if first then [] else [43].
@@ -362,20 +365,18 @@ Proof.
 Qed.
 
 Lemma tp_one_spec : forall s i v, (i < 3)%nat -> v <> 0 ->
-  tp_one 120 s i v = s ++ sign_str (is_nil s) v ++ rot_body (Z.of_nat i) v.
+  tp_one style s i v = s ++ sign_str (is_nil s) v ++ rot_body (Z.of_nat i) v.
 Proof.
   intros s i v Hi Hv. unfold tp_one, rot_body.
   assert (E : (v =? 0) = false) by lia. rewrite E.
-  assert (L : letter_at 120 i = letter_x (Z.of_nat i)).
-  { destruct i as [|[|[|i]]]; try reflexivity. lia. }
-  rewrite L, append_sign_spec.
+  rewrite (letter_at_style i Hi), append_sign_spec.
   destruct (Z.abs v =? DEN); [rewrite <- app_assoc; reflexivity|].
   destruct (get_op_fraction (Z.abs v)) as [n d]. cbn [fst snd].
   destruct (n =? 1); [rewrite <- !app_assoc; reflexivity|].
   rewrite append_fraction_app. rewrite <- !app_assoc. reflexivity.
 Qed.
 
-Lemma tp_one_zero : forall s i, tp_one 120 s i 0 = s.
+Lemma tp_one_zero : forall s i, tp_one style s i 0 = s.
 Proof. reflexivity. Qed.
 
 Lemma good_first_nonnil : forall b, good_first (b ++ []) -> is_nil b = false.
@@ -395,7 +396,7 @@ Definition row_terms (x y z w : Z) : list term :=
   (if z =? 0 then [] else [TRot 2 z]) ++ (if w =? 0 then [] else [TTran w]).
 
 Lemma make_part_is_render : forall x y z w,
-  make_triplet_part (x, y, z) w 120 = render true (row_terms x y z w).
+  make_triplet_part (x, y, z) w style = render true (row_terms x y z w).
 Proof.
   intros x y z w. rewrite make_triplet_part_unfold. cbv zeta. unfold row_terms.
   assert (A0 : is_axis 0) by (left; reflexivity).
@@ -457,11 +458,11 @@ Proof.
   repeat match goal with |- (_, _) = (_, _) => f_equal end; lia.
 Qed.
 
-Lemma term_nt_120 : forall ts, fold_left term_nt ts 120 = 120.
+Lemma term_nt_120 : forall ts, fold_left term_nt ts ntv = ntv.
 Proof. induction ts as [|[i v|w] ts IH]; cbn; [reflexivity|exact IH|exact IH]. Qed.
 
 Lemma row_terms_nt : forall x y z w, (x, y, z) <> (0, 0, 0) ->
-  fold_left term_nt (row_terms x y z w) 32 = 120.
+  fold_left term_nt (row_terms x y z w) 32 = ntv.
 Proof.
   intros x y z w Hnz. unfold row_terms.
   destruct (x =? 0) eqn:Ex; [|cbn [app fold_left term_nt]; apply term_nt_120].
@@ -472,13 +473,16 @@ Qed.
 
 Lemma row_terms_nonempty : forall x y z w, (x, y, z) <> (0, 0, 0) -> row_terms x y z w <> [].
 Proof.
-  intros x y z w Hnz E. apply (f_equal (fun l => fold_left term_nt l 32)) in E.
-  rewrite (row_terms_nt x y z w Hnz) in E. discriminate.
+  intros x y z w Hnz. unfold row_terms.
+  destruct (x =? 0) eqn:Ex; [|cbn [app]; discriminate].
+  destruct (y =? 0) eqn:Ey; [|cbn [app]; discriminate].
+  destruct (z =? 0) eqn:Ez; [|cbn [app]; discriminate].
+  exfalso. apply Hnz. assert (x = 0) by lia. assert (y = 0) by lia. assert (z = 0) by lia. subst. reflexivity.
 Qed.
 
 (* THE ROW THEOREM: printing a row and parsing it back gives the same four numbers, for all integers *)
 Theorem row_roundtrip : forall x y z w, (x, y, z) <> (0, 0, 0) ->
-  parse_triplet_part (make_triplet_part (x, y, z) w 120) 32 = Ok ((x, y, z, w), 120).
+  parse_triplet_part (make_triplet_part (x, y, z) w style) 32 = Ok ((x, y, z, w), ntv).
 Proof.
   intros x y z w Hnz. rewrite make_part_is_render. unfold parse_triplet_part.
   pose proof (row_terms_ok x y z w) as Hok.
@@ -491,7 +495,7 @@ Qed.
 
 (* the same with any compatible incoming notation (second and third part of a triplet) *)
 Theorem row_roundtrip_nt : forall x y z w nt, nt_ok nt -> (x, y, z) <> (0, 0, 0) ->
-  parse_triplet_part (make_triplet_part (x, y, z) w 120) nt = Ok ((x, y, z, w), 120).
+  parse_triplet_part (make_triplet_part (x, y, z) w style) nt = Ok ((x, y, z, w), ntv).
 Proof.
   intros x y z w nt Hnt Hnz. rewrite make_part_is_render. unfold parse_triplet_part.
   pose proof (row_terms_ok x y z w) as Hok.
@@ -521,22 +525,19 @@ Proof.
   destruct Hd as [->|[->|[->|[->|[->|[->|[->| ->]]]]]]]; lia.
 Qed.
 
-Lemma no_comma_letter : forall i, is_axis i -> (letter_x i =? 44) = false.
-Proof. intros i [->|[->| ->]]; reflexivity. Qed.
-
 Lemma no_comma_rot_body : forall i v, is_axis i -> v <> 0 -> no_comma (rot_body i v).
 Proof.
-  intros i v Hi Hv. unfold rot_body. pose proof (no_comma_letter i Hi) as L.
-  destruct (Z.abs v =? DEN); [constructor; [exact L|constructor]|].
+  intros i v Hi Hv. unfold rot_body. pose proof (no_comma_letter i Hi) as HLc.
+  destruct (Z.abs v =? DEN); [constructor; [exact HLc|constructor]|].
   assert (Ha : 0 < Z.abs v) by lia.
   pose proof (gof_facts (Z.abs v) Ha) as G. destruct (get_op_fraction (Z.abs v)) as [n d].
   destruct G as [_ [G2 G3]]. cbn [fst snd].
   destruct (n =? 1).
-  - apply no_comma_app; [constructor; [exact L|constructor]|].
+  - apply no_comma_app; [constructor; [exact HLc|constructor]|].
     apply no_comma_app; [constructor; [reflexivity|constructor]|].
     apply no_comma_print_int. destruct G3 as [->|[->|[->|[->|[->|[->|[->| ->]]]]]]]; lia.
   - rewrite append_fraction_nil. apply no_comma_app; [apply no_comma_app; [apply no_comma_print_int; exact G2|apply no_comma_frac_tail; exact G3]|].
-    apply no_comma_app; [constructor; [reflexivity|constructor]|constructor; [exact L|constructor]].
+    apply no_comma_app; [constructor; [reflexivity|constructor]|constructor; [exact HLc|constructor]].
 Qed.
 
 Lemma no_comma_tran_body : forall w, w <> 0 -> no_comma (tran_body w).
@@ -557,7 +558,7 @@ Proof.
   destruct t as [i v|w]; cbn in *; [destruct Ht; apply no_comma_rot_body; assumption|apply no_comma_tran_body; assumption].
 Qed.
 
-Lemma no_comma_part : forall x y z w, no_comma (make_triplet_part (x, y, z) w 120).
+Lemma no_comma_part : forall x y z w, no_comma (make_triplet_part (x, y, z) w style).
 Proof. intros. rewrite make_part_is_render. apply no_comma_render. apply row_terms_ok. Qed.
 
 (* ---- splitting at the commas ---- *)
@@ -587,23 +588,23 @@ Qed.
 Lemma count_app : forall a b, count_occ_z 44 (a ++ b) = (count_occ_z 44 a + count_occ_z 44 b)%nat.
 Proof. intros. unfold count_occ_z. rewrite filter_app, app_length. reflexivity. Qed.
 
-(* ---- THE OPERATOR THEOREM (xyz notation): lossless triplet notation ---- *)
-Definition rows_nonzero (a : op) : Prop :=
-  let '(r0, r1, r2) := rot a in r0 <> (0,0,0) /\ r1 <> (0,0,0) /\ r2 <> (0,0,0).
 
-Theorem triplet_roundtrip_xyz : forall a, nt_ok (nota a) -> rows_nonzero a ->
-  exists s, triplet a 32 = Some s /\ parse_triplet s 32 = Ok (mkOp (rot a) (tran a) 120).
-Proof.
-  intros [[[r0 r1] r2] [[t0 t1] t2] nt] Hnt Hrows. cbn [nota] in Hnt. unfold rows_nonzero in Hrows.
-  cbn [rot] in Hrows. destruct Hrows as [H0 [H1 H2]].
-  destruct r0 as [[x0 y0] z0]. destruct r1 as [[x1 y1] z1]. destruct r2 as [[x2 y2] z2].
-  set (p0 := make_triplet_part (x0, y0, z0) t0 120).
-  set (p1 := make_triplet_part (x1, y1, z1) t1 120).
-  set (p2 := make_triplet_part (x2, y2, z2) t2 120).
-  exists (p0 ++ [44] ++ p1 ++ [44] ++ p2). split.
-  - unfold triplet, is_hkl. cbn [nota rot tran].
-    destruct Hnt as [->| ->]; reflexivity.
-  - pose proof (no_comma_part x0 y0 z0 t0) as N0. pose proof (no_comma_part x1 y1 z1 t1) as N1.
+  (* three printed rows separated by commas parse back to the three rows *)
+  Theorem parse_three_rows : forall x0 y0 z0 t0 x1 y1 z1 t1 x2 y2 z2 t2,
+    (x0, y0, z0) <> (0,0,0) -> (x1, y1, z1) <> (0,0,0) -> (x2, y2, z2) <> (0,0,0) ->
+    parse_triplet (make_triplet_part (x0, y0, z0) t0 style ++ [44] ++
+                   make_triplet_part (x1, y1, z1) t1 style ++ [44] ++
+                   make_triplet_part (x2, y2, z2) t2 style) 32
+    = (let rt := ((x0, y0, z0), (x1, y1, z1), (x2, y2, z2)) in
+       let tr := (t0, t1, t2) in
+       if ntv =? 104 then (if v3_eqb tr (0,0,0) then Ok (mkOp (transpose rt) tr ntv) else Fail)
+       else Ok (mkOp rt tr ntv)).
+  Proof.
+    intros x0 y0 z0 t0 x1 y1 z1 t1 x2 y2 z2 t2 H0 H1 H2.
+    set (p0 := make_triplet_part (x0, y0, z0) t0 style).
+    set (p1 := make_triplet_part (x1, y1, z1) t1 style).
+    set (p2 := make_triplet_part (x2, y2, z2) t2 style).
+    pose proof (no_comma_part x0 y0 z0 t0) as N0. pose proof (no_comma_part x1 y1 z1 t1) as N1.
     pose proof (no_comma_part x2 y2 z2 t2) as N2. fold p0 in N0. fold p1 in N1. fold p2 in N2.
     unfold parse_triplet.
     assert (Ec : count_occ_z 44 (p0 ++ [44] ++ p1 ++ [44] ++ p2) = 2%nat).
@@ -614,7 +615,117 @@ Proof.
     rewrite (split_on_sep p0 _ [] N0), (split_on_sep p1 _ [] N1), (split_on_no_sep p2 [] N2). cbn [rev app].
     unfold p0, p1, p2.
     rewrite (row_roundtrip_nt x0 y0 z0 t0 32 (or_introl eq_refl) H0).
-    rewrite (row_roundtrip_nt x1 y1 z1 t1 120 (or_intror eq_refl) H1).
-    rewrite (row_roundtrip_nt x2 y2 z2 t2 120 (or_intror eq_refl) H2).
+    rewrite (row_roundtrip_nt x1 y1 z1 t1 ntv (or_intror eq_refl) H1).
+    rewrite (row_roundtrip_nt x2 y2 z2 t2 ntv (or_intror eq_refl) H2).
+    reflexivity.
+  Qed.
+
+End Style.
+
+(* ================= instances: the six letter sets Op::triplet can print ================= *)
+Definition Lx (i : Z) : Z := 120 + i.
+Definition LX (i : Z) : Z := 88 + i.
+Definition La (i : Z) : Z := 97 + i.
+Definition LA (i : Z) : Z := 65 + i.
+Definition Lh (i : Z) : Z := match i with 0 => 104 | 1 => 107 | _ => 108 end.
+Definition LH (i : Z) : Z := match i with 0 => 72 | 1 => 75 | _ => 76 end.
+
+Ltac style_hyps :=
+  try (intros i nt [->|[->| ->]] [->| ->]; reflexivity);
+  try (intros i [->|[->| ->]]; cbn; repeat split; reflexivity);
+  try (intros i [->|[->| ->]]; reflexivity);
+  try (intros [|[|[|i]]] Hi; try reflexivity; lia).
+
+Lemma Ix1 : forall i nt, is_axis i -> nt_ok 120 nt -> interpret_letter (Lx i) nt = Some (i, 120). Proof. style_hyps. Qed.
+Lemma IX1 : forall i nt, is_axis i -> nt_ok 120 nt -> interpret_letter (LX i) nt = Some (i, 120). Proof. style_hyps. Qed.
+Lemma Ia1 : forall i nt, is_axis i -> nt_ok 96 nt -> interpret_letter (La i) nt = Some (i, 96). Proof. style_hyps. Qed.
+Lemma IA1 : forall i nt, is_axis i -> nt_ok 96 nt -> interpret_letter (LA i) nt = Some (i, 96). Proof. style_hyps. Qed.
+Lemma Ih1 : forall i nt, is_axis i -> nt_ok 104 nt -> interpret_letter (Lh i) nt = Some (i, 104). Proof. style_hyps. Qed.
+Lemma IH1 : forall i nt, is_axis i -> nt_ok 104 nt -> interpret_letter (LH i) nt = Some (i, 104). Proof. style_hyps. Qed.
+
+Definition letter_facts (L : Z -> Z) : Prop := forall i, is_axis i ->
+  is_digit (L i) = false /\ (L i =? 46) = false /\ is_tspace (L i) = false /\
+  (L i =? 43) = false /\ (L i =? 45) = false /\ (L i =? 0) = false.
+Lemma Fx : letter_facts Lx. Proof. unfold letter_facts. style_hyps. Qed.
+Lemma FX : letter_facts LX. Proof. unfold letter_facts. style_hyps. Qed.
+Lemma Fa : letter_facts La. Proof. unfold letter_facts. style_hyps. Qed.
+Lemma FA : letter_facts LA. Proof. unfold letter_facts. style_hyps. Qed.
+Lemma Fh : letter_facts Lh. Proof. unfold letter_facts. style_hyps. Qed.
+Lemma FH : letter_facts LH. Proof. unfold letter_facts. style_hyps. Qed.
+
+Definition comma_facts (L : Z -> Z) : Prop := forall i, is_axis i -> (L i =? 44) = false.
+Lemma Cx : comma_facts Lx. Proof. unfold comma_facts. style_hyps. Qed.
+Lemma CX : comma_facts LX. Proof. unfold comma_facts. style_hyps. Qed.
+Lemma Ca : comma_facts La. Proof. unfold comma_facts. style_hyps. Qed.
+Lemma CA : comma_facts LA. Proof. unfold comma_facts. style_hyps. Qed.
+Lemma Ch : comma_facts Lh. Proof. unfold comma_facts. style_hyps. Qed.
+Lemma CH : comma_facts LH. Proof. unfold comma_facts. style_hyps. Qed.
+
+Definition at_facts (style : Z) (L : Z -> Z) : Prop := forall i, (i < 3)%nat -> letter_at style i = L (Z.of_nat i).
+Lemma Ax : at_facts 120 Lx. Proof. unfold at_facts. style_hyps. Qed.
+Lemma AX : at_facts 88 LX. Proof. unfold at_facts. style_hyps. Qed.
+Lemma Aa : at_facts 97 La. Proof. unfold at_facts. style_hyps. Qed.
+Lemma AA : at_facts 65 LA. Proof. unfold at_facts. style_hyps. Qed.
+Lemma Ah : at_facts 104 Lh. Proof. unfold at_facts. style_hyps. Qed.
+Lemma AH : at_facts 72 LH. Proof. unfold at_facts. style_hyps. Qed.
+
+Definition rows_nonzero (a : op) : Prop :=
+  let '(r0, r1, r2) := rot a in r0 <> (0,0,0) /\ r1 <> (0,0,0) /\ r2 <> (0,0,0).
+Definition cols_nonzero (a : op) : Prop :=
+  let '(r0, r1, r2) := transpose (rot a) in r0 <> (0,0,0) /\ r1 <> (0,0,0) /\ r2 <> (0,0,0).
+
+(* real-space styles: 'x' 'X' 'a' 'A' *)
+Definition real_style (st ntv : Z) : Prop :=
+  (st = 120 /\ ntv = 120) \/ (st = 88 /\ ntv = 120) \/ (st = 97 /\ ntv = 96) \/ (st = 65 /\ ntv = 96).
+
+Theorem triplet_roundtrip_real : forall a st ntv, real_style st ntv -> nota a <> 104 -> rows_nonzero a ->
+  exists s, triplet a st = Some s /\ parse_triplet s 32 = Ok (mkOp (rot a) (tran a) ntv).
+Proof.
+  intros [[[r0 r1] r2] [[t0 t1] t2] nt] st ntv Hst Hnt Hrows. cbn [nota] in Hnt.
+  unfold rows_nonzero in Hrows. cbn [rot] in Hrows. destruct Hrows as [H0 [H1 H2]].
+  destruct r0 as [[x0 y0] z0]. destruct r1 as [[x1 y1] z1]. destruct r2 as [[x2 y2] z2].
+  assert (Eh : is_hkl (mkOp ((x0,y0,z0),(x1,y1,z1),(x2,y2,z2)) (t0,t1,t2) nt) = false)
+    by (unfold is_hkl; cbn [nota]; apply Z.eqb_neq; exact Hnt).
+  destruct Hst as [[-> ->]|[[-> ->]|[[-> ->]|[-> ->]]]].
+  - eexists. split; [unfold triplet, is_hkl; cbn [nota rot tran]; rewrite (proj2 (Z.eqb_neq _ _) Hnt); reflexivity|].
+    cbn [rot tran]. apply (parse_three_rows 120 Lx 120 Ix1 Fx Cx Ax); assumption.
+  - eexists. split; [unfold triplet, is_hkl; cbn [nota rot tran]; rewrite (proj2 (Z.eqb_neq _ _) Hnt); reflexivity|].
+    cbn [rot tran]. apply (parse_three_rows 88 LX 120 IX1 FX CX AX); assumption.
+  - eexists. split; [unfold triplet, is_hkl; cbn [nota rot tran]; rewrite (proj2 (Z.eqb_neq _ _) Hnt); reflexivity|].
+    cbn [rot tran]. apply (parse_three_rows 97 La 96 Ia1 Fa Ca Aa); assumption.
+  - eexists. split; [unfold triplet, is_hkl; cbn [nota rot tran]; rewrite (proj2 (Z.eqb_neq _ _) Hnt); reflexivity|].
+    cbn [rot tran]. apply (parse_three_rows 65 LA 96 IA1 FA CA AA); assumption.
+Qed.
+
+(* the default style: notation ' ' or 'x' prints xyz *)
+Theorem triplet_roundtrip_xyz : forall a, (nota a = 32 \/ nota a = 120) -> rows_nonzero a ->
+  exists s, triplet a 32 = Some s /\ parse_triplet s 32 = Ok (mkOp (rot a) (tran a) 120).
+Proof.
+  intros a Hn Hr.
+  destruct (triplet_roundtrip_real a 120 120 (or_introl (conj eq_refl eq_refl))) as [s [E P]];
+    [destruct Hn as [->| ->]; discriminate|exact Hr|].
+  exists s. split; [|exact P].
+  destruct a as [rt tr nt]. cbn [nota] in Hn. unfold triplet in *. cbn [nota] in *.
+  destruct Hn as [->| ->]; exact E.
+Qed.
+
+(* reciprocal-space styles 'h' 'H': the operator stores the transposed matrix and no translation *)
+Theorem triplet_roundtrip_hkl : forall a st, (st = 104 \/ st = 72) -> nota a = 104 -> tran a = (0,0,0) ->
+  cols_nonzero a ->
+  exists s, triplet a st = Some s /\ parse_triplet s 32 = Ok (mkOp (rot a) (0,0,0) 104).
+Proof.
+  intros [[[r0 r1] r2] tr nt] st Hst Hnt Htr Hcols. cbn [nota tran] in *. subst nt tr.
+  destruct r0 as [[x0 y0] z0]. destruct r1 as [[x1 y1] z1]. destruct r2 as [[x2 y2] z2].
+  unfold cols_nonzero in Hcols. cbn [rot transpose] in Hcols. destruct Hcols as [H0 [H1 H2]].
+  destruct Hst as [->| ->].
+  - exists (make_triplet_part (x0, x1, x2) 0 104 ++ [44] ++ make_triplet_part (y0, y1, y2) 0 104 ++ [44] ++
+            make_triplet_part (z0, z1, z2) 0 104).
+    split; [unfold triplet, is_hkl; cbn [nota rot tran transpose]; reflexivity|].
+    rewrite (parse_three_rows 104 Lh 104 Ih1 Fh Ch Ah x0 x1 x2 0 y0 y1 y2 0 z0 z1 z2 0 H0 H1 H2).
+    reflexivity.
+  - exists (make_triplet_part (x0, x1, x2) 0 72 ++ [44] ++ make_triplet_part (y0, y1, y2) 0 72 ++ [44] ++
+            make_triplet_part (z0, z1, z2) 0 72).
+    split; [unfold triplet, is_hkl; cbn [nota rot tran transpose]; reflexivity|].
+    rewrite (parse_three_rows 72 LH 104 IH1 FH CH AH x0 x1 x2 0 y0 y1 y2 0 z0 z1 z2 0 H0 H1 H2).
     reflexivity.
 Qed.
